@@ -248,6 +248,7 @@ def run(ctx: Ctx):
     check_generated_names(ctx, "R19.g")
 
     ctx.rule("R19.e", "print methods only interpolate text that went through the printer (so that sympy's reserved-word renaming applies to every symbol)", floor=8)
+    printers.check_class_attr_overrides(ctx, "R19.e")
     for pr in ("numpy", "jax", "c", "ode"):
         for g in M.chains[pr]:
             for mname, f in g.methods.items():
@@ -390,6 +391,11 @@ def check_generated_names(ctx: Ctx, rule: str):
     from .c04 import index_templates
 
     index_templates(ctx, rule)
+    # ... and are keyed by the model's own names: a key that went through the printer is the *renamed* identifier for a
+    # name the target language reserves (`lambda_`, `default_`), so the quantity can no longer be addressed by its name
+    from .c04 import index_dicts
+
+    index_dicts(ctx, rule)
     from .c11 import check_writer_rows
 
     check_writer_rows(ctx, rule, only={"Exp1", "Pi"})
